@@ -160,3 +160,4 @@ VP('C19', 'C19-e2', 'C19.L', 'cache-key-equality')
 VP('C19', 'C19-e3', 'C19.R11', 'unit=EiB')
 VP('C19', 'C19-f1', 'C19.R12', 'source-describes-the-operation')
 VP('C19', 'C19-f2', 'C19.R13', 'later-scope-wins')
+VP('C19', 'C19-f3', 'C19.R14', 'payload-not-consumed')
